@@ -53,19 +53,19 @@ Print Assumptions C42_live_series_characterisation.
     with a non-empty value list): for every key the values are exactly the sorted distinct values
     of the live, authorized series of the measurement that satisfy the filter (C15 semantics) —
     any authorizer, any stale listing. *)
-Theorem C42_values_filter_exact_sorted_nodup_partial :
-  forall shs rm a m keys e, no_ghosts shs -> wf (is_live shs) -> tag_only N e = true ->
+Theorem C42_values_filter_exact_sorted_nodup :
+  forall shs rm a m keys e, wf (is_live shs) -> tag_only N e = true ->
   Forall2 (fun k vs => SSorted vs /\ NoDup vs /\
              forall v, In v vs <-> exists s, In s (is_live shs) /\ s_name s = m /\ auth_ok a s = true /\
                                              eval N rm m e s = true /\ tag_get (s_tags s) k = Some v)
           keys (key_values shs rm a m keys (Some e)).
 Proof. exact values_filter_exact_sorted_nodup. Qed.
-Print Assumptions C42_values_filter_exact_sorted_nodup_partial.
+Print Assumptions C42_values_filter_exact_sorted_nodup.
 
 (** Listings without a filter under ANY fine-grained authorizer [f]: values and keys are exact
     (a name all of whose series are hidden or deleted is never returned). *)
 Theorem C42_values_fine_auth_exact_partial :
-  forall shs rm f m keys, no_ghosts shs ->
+  forall shs rm f m keys,
   Forall2 (fun k vs => SSorted vs /\ NoDup vs /\
              forall v, In v vs <-> exists s, In s (is_live shs) /\ s_name s = m /\ f s = true /\
                                              tag_get (s_tags s) k = Some v)
@@ -110,25 +110,21 @@ Proof.
 Qed.
 Print Assumptions C42_names_by_tag_open_auth_refuted.
 
-(** REFUTED without the no_ghosts hypothesis (confirmed on the real tsdb.Store, known finding
-    tsi-tagvalue-cache-stale-after-series-delete): a series dropped from a shard whose tag-value
-    series sets were cached (the DELETE's own WHERE clause caches them) and that lives on in
-    another shard is still returned for that shard, with and without a WHERE filter, also under
-    a fine-grained authorizer. *)
-Theorem C42_values_stale_cache_refuted :
-  exists shs rm f kf filt,
-    tag_values shs rm (Some f) None kf None <> Some (spec_values shs rm (Some f) None kf None) /\
-    tag_values shs rm (Some f) None kf (Some filt) <> Some (spec_values shs rm (Some f) None kf (Some filt)).
-Proof.
-  exists [w_ghost_shard], w_rm, (fun _ => true), (KEq "k1"), (Eq "k1" "a").
-  destruct w_values_ghost as [-> [-> [-> ->]]]. split; discriminate.
-Qed.
-Print Assumptions C42_values_stale_cache_refuted.
+(** Formerly REFUTED (finding tsi-tagvalue-cache-stale-after-series-delete, repaired): a shard
+    that dropped n,k1=a while the series lives on in another shard answers exactly from its live
+    series, without and with a WHERE filter. *)
+Example C42_values_after_series_drop_exact :
+  let all := Some (fun _ : series => true) in
+  tag_values [w_dropped_shard] w_rm all None (KEq "k1") None
+    = Some (spec_values [w_dropped_shard] w_rm all None (KEq "k1") None)
+  /\ tag_values [w_dropped_shard] w_rm all None (KEq "k1") (Some (Eq "k1" "a"))
+    = Some (spec_values [w_dropped_shard] w_rm all None (KEq "k1") (Some (Eq "k1" "a"))).
+Proof. cbv zeta. destruct w_values_after_drop as [-> [-> [-> ->]]]. split; reflexivity. Qed.
 
 (** OBSERVATION: SHOW MEASUREMENTS WHERE a AND b intersects the NAME sets of a and of b
     (InfluxQL's measurement-level meaning), it does not ask for one series matching both. *)
 Theorem C42_names_and_is_measurement_level_observation :
-  let sh := {| sh_all := [w_s "m" [("k1","a")]; w_s "m" [("k2","b")]]; sh_dead := []; sh_ghost := [] |} in
+  let sh := {| sh_all := [w_s "m" [("k1","a")]; w_s "m" [("k2","b")]]; sh_dead := [] |} in
   measurement_names [sh] w_rm None (Some (And (Eq "k1" "a") (Eq "k2" "b"))) = Some ["m"]
   /\ spec_names [sh] w_rm None (Some (And (Eq "k1" "a") (Eq "k2" "b"))) = [].
 Proof. exact w_names_and_is_measurement_level. Qed.
@@ -138,7 +134,7 @@ Print Assumptions C42_names_and_is_measurement_level_observation.
     answers are non-trivial and a fine authorizer that allows everything removes the stale k2. *)
 Example C42_nonvacuous :
   let s1 := w_s "m" [("k1","a")] in let s2 := w_s "m" [("k2","b")] in let s3 := w_s "n" [("k1","b")] in
-  let shs := [ {| sh_all := [s1; s2]; sh_dead := [s2]; sh_ghost := [] |}; {| sh_all := [s3; s1]; sh_dead := []; sh_ghost := [] |} ] in
+  let shs := [ {| sh_all := [s1; s2]; sh_dead := [s2] |}; {| sh_all := [s3; s1]; sh_dead := [] |} ] in
   measurement_names shs w_rm (Some (fun s => negb (series_eqb s s3))) None = Some ["m"]
   /\ tag_values shs w_rm None None (KIn ["k1"; "k2"]) (Some (Neq "k1" "")) = Some [("m", [("k1","a")]); ("n", [("k1","b")])]
   /\ tag_keys shs w_rm (Some (fun _ => true)) None KAll None = Some [("m", ["k1"]); ("n", ["k1"])]
